@@ -124,7 +124,9 @@ ErrAtomic    == [][(ures'.t = "err" /\ ucall'.op \notin Piecewise) => ust' = ust
 ImplErrAtomic == [][(WithImpl /\ uires'.t = "err" /\ ucall'.op \notin Piecewise) => uim' = uim]_uvars
 QueriesPure  == [][ucall'.op \in Queries => ust' = ust]_uvars
 \* nodes appear only as the fresh nodes of the call and disappear only when the caller drops them
-NodesConserved == [][Live(ust') = (Live(ust) \cup ToSet(ucall'.f)) \ (IF ucall'.op = "drop" THEN {ucall'.x} ELSE {})
+Gone(st, c) == IF c.op = "drop" THEN {c.x}
+               ELSE IF c.op \in {"lclear", "lsetstate"} THEN ToSet(st.lst[c.l]) ELSE {}
+NodesConserved == [][Live(ust') = (Live(ust) \cup ToSet(ucall'.f)) \ Gone(ust, ucall')
                      \/ ures'.t = "err"]_uvars
 \* a node taken out of its chain is detached
 DetachedReally == [][(ures'.t # "err" /\ ucall'.op \in {"lremove", "nremove"}) => Detached(ust', ucall'.x)]_uvars
